@@ -1855,6 +1855,12 @@ pub fn server_message_classification() -> Value {
 			("\x0b{\"jsonrpc\":\"2.0\",\"id\":1,\"method\":\"add\",\"params\":[1,2]}", err(-32700, Value::Null)),
 			("\x0c[{\"jsonrpc\":\"2.0\",\"id\":1,\"method\":\"add\",\"params\":[1,2]}]", err(-32700, Value::Null)),
 			("\u{a0}{\"jsonrpc\":\"2.0\",\"id\":1,\"method\":\"add\",\"params\":[1,2]}", err(-32700, Value::Null)),
+			// an object that REPEATS the id member has an id member: it is not a notification, it is answered (as JSON that is no request)
+			(r#"{"jsonrpc":"2.0","id":1,"id":1,"method":"add","params":[1,2]}"#, err(-32700, Value::Null)),
+			(r#"{"jsonrpc":"2.0","id":1,"id":2,"method":"add","params":[1,2]}"#, err(-32700, Value::Null)),
+			(r#"{"jsonrpc":"2.0","id":{},"id":1,"method":"add","params":[1,2]}"#, err(-32700, Value::Null)),
+			(r#"{"jsonrpc":"2.0","id":1,"method":"add","params":[1,2],"id":[]}"#, err(-32700, Value::Null)),
+			(r#"[{"jsonrpc":"2.0","id":1,"id":1,"method":"add","params":[1,2]},{"jsonrpc":"2.0","id":2,"method":"add","params":[1]}]"#, json!([{"code":-32600,"id":null},{"result":1,"id":2}])),
 			// batches
 			(r#"[{"jsonrpc":"2.0","id":1,"method":"add","params":[1,2]},{"jsonrpc":"2.0","method":"add","params":[1]},{"jsonrpc":"2.0","id":9}]"#, json!([{"result":3,"id":1}, {"code":-32600,"id":9}])),
 			(r#"[{"jsonrpc":"2.0","method":"add","params":[1]},{"foo":"boo"}]"#, json!([{"code":-32600,"id":null}])),
